@@ -31,10 +31,11 @@ def _spec(shape: str, modes: List[str], fall: bool) -> Spec:
     ], "A", "D")
 
 
-def make(shape: str, n: int, registry: bool, fall: bool = True) -> Any:
+def make(shape: str, n: int, registry: bool, fall: bool = True, n_sym_modes: Optional[int] = None) -> Any:
     def mk() -> Any:
         def h(sym: Any) -> Tuple[str, Dict[str, Any]]:
-            modes = [MODES[sym.choice("mode%d" % i, 4)] for i in range(n)]
+            k = n if n_sym_modes is None else n_sym_modes
+            modes = [MODES[sym.choice("mode%d" % i, 4)] if i < k else "async" for i in range(n)]
             ts = STATES[sym.choice("thread_pool", 3)] if registry else "ok"
             ps = STATES[sym.choice("process_pool", 3)] if registry else "ok"
             with untraced():
@@ -92,13 +93,19 @@ A = ["real thread/process pools replaced by the executor stub (completion after 
      "an inline-only pipeline rejected because no thread pool is registered carries no assertion (the property is "
      "silent on pools that are not needed)"]
 register(Job("C17", "chain_registry", make("chain", 3, True), tier="quick", budget_s=500,
-             parts=[{"thread_pool": t, "process_pool": p} for t in range(3) for p in range(3)],
+             parts=[{"thread_pool": t, "process_pool": p, "mode0": m} for t in range(3) for p in range(3) for m in range(4)],
              goals=("needed_pool_missing", "pools_ready", "three_modes_mixed"),
              doc={"template": "3-node chain", "symbolic": ["mode per node (64 assignments)", "registry state per pool (9)",
                                                           "durations", "outcome kind of B", "caller input"],
                   "functions": F, "assumptions": A, "bounds": "3 nodes"}))
-register(Job("C17", "rhombus_modes", make("rhombus", 4, False), tier="quick", budget_s=600,
+register(Job("C17", "rhombus_modes", make("rhombus", 4, False, n_sym_modes=3), tier="quick", budget_s=600,
              parts=[{"mode0": a, "mode1": b} for a in range(4) for b in range(4)],
+             goals=("pools_ready", "three_modes_mixed"),
+             doc={"template": "rhombus", "symbolic": ["mode of A, B, C (64 assignments; the output node is a coroutine)",
+                                                     "durations", "outcome kind of B", "caller input"],
+                  "functions": F, "assumptions": A, "bounds": "4 nodes, pools registered"}))
+register(Job("C17", "rhombus_modes_all", make("rhombus", 4, False), tier="thorough", budget_s=1500,
+             parts=[{"mode0": a, "mode1": b, "mode2": c} for a in range(4) for b in range(4) for c in range(4)],
              goals=("pools_ready", "three_modes_mixed"),
              doc={"template": "rhombus", "symbolic": ["mode per node (256 assignments)", "durations", "outcome kind of B", "caller input"],
                   "functions": F, "assumptions": A, "bounds": "4 nodes, pools registered"}))
